@@ -58,6 +58,97 @@ Proof.
 Qed.
 Print Assumptions link_Individual_is_valid.
 
+(* ------------------------------------------------------------------ __post_init__ *)
+Lemma dict_set_fresh {B} (d : list (Z * B)) k v : (forall kv, In kv d -> fst kv <> k) -> py_dict_set Z.eqb d k v = (d ++ [(k, v)])%list.
+Proof.
+  induction d as [|kv t IH]; intros H; [reflexivity|]. cbn [py_dict_set app].
+  replace (fst kv =? k) with false by (symmetry; apply Z.eqb_neq; apply H; left; reflexivity).
+  rewrite IH; [reflexivity|]. intros kv' Hin. apply H. right. exact Hin.
+Qed.
+
+(* the loop of __post_init__ from position s on: it appends the entries lpi_from names (all keys so far are < s) *)
+Lemma post_init_loop (t : list layer) : forall s (d : list (Z * list Z)) off,
+  (forall kv, In kv d -> fst kv < Z.of_nat s) ->
+  fold_left (fun '((d, off) : list (Z * list Z) * Z) '((k, l) : Z * layer) =>
+      (py_dict_set Z.eqb d k (py_range off (off + layer_n_parameters l)), off + layer_n_parameters l))
+    (combine (map Z.of_nat (seq s (length t))) t) (d, off)
+  = ((d ++ lpi_from (Z.of_nat s) off t)%list, off + n_params_of t).
+Proof.
+  induction t as [|l t IH]; intros s d off H.
+  - cbn. rewrite app_nil_r. f_equal. unfold n_params_of. cbn. lia.
+  - cbn [length seq map combine fold_left lpi_from].
+    rewrite dict_set_fresh by (intros kv Hin; apply H in Hin; lia).
+    rewrite IH.
+    + rewrite <- app_assoc, n_params_of_cons. cbn [app]. replace (Z.of_nat (S s)) with (Z.of_nat s + 1) by lia.
+      f_equal. lia.
+    + intros kv Hin. apply in_app_or in Hin as [Hin|[<-|[]]]; [apply H in Hin; lia | cbn [fst]; lia].
+Qed.
+
+(* Hypothesis as for link_Individual_is_valid: the layers are layer objects.  The constructor raises exactly for an
+   invalid record (= make_individual) and otherwise stores lpi_of as _layer_parameter_indices: this is what justifies
+   the spec's reading of that attribute. *)
+Lemma link_Individual_post_init : forall V (i : individual V),
+  forallb layer_wf (i_layers i) = true ->
+  gen_Individual_post_init V i
+  = if individual_is_valid i then Ok (mkIndCache (lpi_of (i_layers i))) else Err IndividualException.
+Proof.
+  intros V i W. unfold gen_Individual_post_init. rewrite (link_Individual_is_valid V i W). cbn [bind].
+  destruct (individual_is_valid i); [|reflexivity]. cbn [negb]. cbv zeta. unfold py_enumerate.
+  match goal with |- context[fold_left ?f _ _] =>
+    change f with (fun '((d, off) : list (Z * list Z) * Z) '((k, l) : Z * layer) =>
+      (py_dict_set Z.eqb d k (py_range off (off + layer_n_parameters l)), off + layer_n_parameters l)) end.
+  rewrite (post_init_loop (i_layers i) 0 [] 0) by (intros kv []). reflexivity.
+Qed.
+Print Assumptions link_Individual_post_init.
+
+(* ------------------------------------------------------------------ layer_parameter_indices, get_layer_parameter_values *)
+(* the property returns the private attribute, whose representation is lpi_of (what the translated __post_init__
+   stores: link_Individual_post_init) *)
+Lemma link_layer_parameter_indices : forall V (i : individual V), gen_layer_parameter_indices V i = lpi_of (i_layers i).
+Proof. reflexivity. Qed.
+Print Assumptions link_layer_parameter_indices.
+
+(* layer_id % len(layers) *)
+Lemma wrap_mod {V} (i : individual V) layer_id : i_layers i <> [] ->
+  py_mod layer_id (py_len (i_layers i)) = Ok (Z.of_nat (wrap_layer_id i layer_id))
+  /\ (wrap_layer_id i layer_id < length (i_layers i))%nat.
+Proof.
+  intros NE. pose proof (wrap_in_range i layer_id NE) as R. split; [|exact R].
+  unfold py_mod, wrap_layer_id in *. rewrite py_len_of_nat.
+  assert (0 < Z.of_nat (length (i_layers i))) by (destruct (i_layers i); [congruence | cbn [length]; lia]).
+  replace (Z.of_nat (length (i_layers i)) =? 0) with false by (symmetry; apply Z.eqb_neq; lia).
+  pose proof (Z.mod_pos_bound layer_id (Z.of_nat (length (i_layers i))) H). rewrite Z2Nat.id by lia. reflexivity.
+Qed.
+
+(* no hypothesis: an individual without layers (which the constructor rejects) makes the modulo raise *)
+Lemma link_get_layer_parameter_values : forall V (i : individual V) layer_id,
+  gen_get_layer_parameter_values V i layer_id
+  = if Nat.eqb (length (i_layers i)) 0 then Err "ZeroDivisionError"%string else Ok (get_layer_parameter_values i layer_id).
+Proof.
+  intros V i lid. unfold gen_get_layer_parameter_values.
+  destruct (i_layers i) as [|l0 t0] eqn:E; [reflexivity|].
+  assert (NE : i_layers i <> []) by (rewrite E; discriminate). rewrite <- E.
+  destruct (wrap_mod i lid NE) as [-> R]. rewrite E at 1. cbn [length Nat.eqb bind].
+  unfold gen_layer_parameter_indices. rewrite (lpi_get _ _ R).
+  rewrite (py_filterM_total _ (fun p : Z * V => let '(k, _) := p in
+             py_mem Z.eqb k (PyPrelude.py_range (Z.of_nat (layer_offset (i_layers i) (wrap_layer_id i lid)))
+                                (Z.of_nat (layer_offset (i_layers i) (wrap_layer_id i lid)) + Z.of_nat (layer_count (i_layers i) (wrap_layer_id i lid))))))
+    by (intros [k v]; reflexivity).
+  cbn [bind]. rewrite enumerate_window. reflexivity.
+Qed.
+Print Assumptions link_get_layer_parameter_values.
+
+(* ------------------------------------------------------------------ small accessors *)
+Lemma link_get_parameter_values : forall V (i : individual V), gen_get_parameter_values V i = i_values i.
+Proof. reflexivity. Qed.
+Print Assumptions link_get_parameter_values.
+
+(* = n_controlled of Evqe/Selection.v *)
+Lemma link_get_n_controlled_gates : forall V (i : individual V),
+  gen_get_n_controlled_gates V i = sumZ (map layer_n_controlled (i_layers i)).
+Proof. intros V i. unfold gen_get_n_controlled_gates. apply py_sum_Z_sumZ. Qed.
+Print Assumptions link_get_n_controlled_gates.
+
 (* ------------------------------------------------------------------ change_parameter_values *)
 Lemma link_change_parameter_values : forall V (i : individual V) vs,
   gen_change_parameter_values V i vs = change_parameter_values i vs.
@@ -68,6 +159,78 @@ Proof.
   unfold make_individual, individual_is_valid. cbn [i_qubits i_layers i_values]. rewrite E, andb_false_r. reflexivity.
 Qed.
 Print Assumptions link_change_parameter_values.
+
+(* ------------------------------------------------------------------ change_layer_parameter_values *)
+Lemma of_nat_eqb a b : Z.eqb (Z.of_nat a) (Z.of_nat b) = Nat.eqb a b.
+Proof. destruct (Nat.eqb_spec a b); [apply Z.eqb_eq | apply Z.eqb_neq]; lia. Qed.
+
+(* the loop that collects the value tuples of the layers at positions s, s+1, ...: layer k gets the new values, every
+   other layer the slice of the flat tuple that layer_parameter_indices names (inside the tuple for an individual
+   whose value count matches) *)
+Lemma change_loop {V} (i : individual V) (k : nat) (vs : list V) :
+  Z.of_nat (length (i_values i)) = n_params_of (i_layers i) ->
+  forall (t : list layer) s acc, (s + length t <= length (i_layers i))%nat ->
+  py_foldM (fun (acc : list (list V)) (p : Z * layer) => let '(index, _) := p in
+      do j <- (if negb (Z.eqb index (Z.of_nat k))
+               then do dv <- py_dict_get Z.eqb (lpi_of (i_layers i)) index;
+                    do xs <- mapM (fun i_ => do it <- PyPrelude.py_index (i_values i) i_; Ok it) dv;
+                    Ok (acc ++ [xs])%list
+               else Ok (acc ++ [vs])%list);
+      Ok j) (combine (map Z.of_nat (seq s (length t))) t) acc
+  = Ok (acc ++ map (fun j => if Nat.eqb j k then vs else layer_values i j) (seq s (length t))).
+Proof.
+  intros HL. induction t as [|l t IH]; intros s acc Hs; [cbn; rewrite app_nil_r; reflexivity|].
+  cbn [length] in Hs. cbn [length seq map combine py_foldM]. rewrite of_nat_eqb.
+  destruct (Nat.eqb s k); cbn [negb bind].
+  - rewrite IH by lia. rewrite <- app_assoc. reflexivity.
+  - rewrite lpi_get by lia. cbn [bind]. rewrite py_range_nat, mapM_index_range.
+    + cbn [bind]. rewrite IH by lia. rewrite <- app_assoc. reflexivity.
+    + pose proof (offset_count_total (i_layers i) s). lia.
+Qed.
+
+(* Hypothesis: `individual` is an EVQEIndividual OBJECT, i.e. it passed the validity check of its constructor.  It is
+   used twice: the individual has layers (else `% len(layers)` raises ZeroDivisionError) and as many values as its
+   layers have parameters (else `parameter_values[i]` raises IndexError; the model slices with firstn/skipn, which
+   cannot fail). *)
+Lemma link_change_layer_parameter_values : forall V (i : individual V) layer_id vs,
+  individual_is_valid i = true ->
+  gen_change_layer_parameter_values V i layer_id vs = change_layer_parameter_values i layer_id vs.
+Proof.
+  intros V i lid vs Val. apply valid_parts in Val as [NE [_ HL]].
+  unfold gen_change_layer_parameter_values, change_layer_parameter_values. cbv zeta.
+  destruct (wrap_mod i lid NE) as [-> R]. set (k := wrap_layer_id i lid) in *. cbn [bind].
+  unfold gen_layer_parameter_indices. rewrite (lpi_get _ _ R). cbn [bind].
+  rewrite py_len_range_nat, py_len_of_nat, of_nat_eqb.
+  destruct (Nat.eqb (length vs) (layer_count (i_layers i) k)); [|reflexivity]. cbn [negb].
+  unfold py_enumerate.
+  match goal with |- (do l <- py_foldM ?f _ _; _) = _ =>
+    change f with (fun (acc : list (list V)) (p : Z * layer) => let '(index, _) := p in
+      do j <- (if negb (Z.eqb index (Z.of_nat k))
+               then do dv <- py_dict_get Z.eqb (lpi_of (i_layers i)) index;
+                    do xs <- mapM (fun i_ => do it <- PyPrelude.py_index (i_values i) i_; Ok it) dv;
+                    Ok (acc ++ [xs])%list
+               else Ok (acc ++ [vs])%list);
+      Ok j) end.
+  rewrite (change_loop i k vs HL (i_layers i) 0 []) by lia. cbn [bind app]. rewrite bind_ret.
+  f_equal. rewrite flat_map_concat_map, map_id.
+  set (L := length (i_layers i)) in *. set (piece := fun j => if Nat.eqb j k then vs else layer_values i j).
+  replace L with (k + (1 + (L - S k)))%nat at 1 by lia.
+  rewrite !seq_app, !map_app, !concat_app. cbn [seq map concat Nat.add]. rewrite app_nil_r.
+  replace (piece k) with vs by (unfold piece; rewrite Nat.eqb_refl; reflexivity).
+  rewrite (map_ext_in piece (layer_values i) (seq 0 k))
+    by (intros j Hj; apply in_seq in Hj; unfold piece; destruct (Nat.eqb_spec j k); [lia | reflexivity]).
+  replace (k + 1)%nat with (S k) by lia.
+  rewrite (map_ext_in piece (layer_values i) (seq (S k) (L - S k)))
+    by (intros j Hj; apply in_seq in Hj; unfold piece; destruct (Nat.eqb_spec j k); [lia | reflexivity]).
+  rewrite !slices_concat by (fold L; lia).
+  replace (S k + (L - S k))%nat with L by lia.
+  assert (O0 : layer_offset (i_layers i) 0 = 0%nat) by reflexivity.
+  assert (OL : layer_offset (i_layers i) L = length (i_values i)).
+  { unfold layer_offset, L. rewrite firstn_all. lia. }
+  rewrite O0, OL, (layer_offset_S _ k R), Nat.sub_0_r. cbn [skipn Nat.add].
+  f_equal. f_equal. apply firstn_all2. rewrite skipn_length. lia.
+Qed.
+Print Assumptions link_change_layer_parameter_values.
 
 (* ------------------------------------------------------------------ remove_layers *)
 (* l[0:b] for b >= 0 *)
